@@ -296,3 +296,13 @@ Print Assumptions C02_no_panic_formula_value.
 Print Assumptions C02_no_panic_dimensions.
 Print Assumptions C02_rk_num_panics_iff.
 Print Assumptions C02_rk_int_float_x100_agree.
+
+(* ---- the whole file: compound-file container (C13) + globals substream (C16) + SST (C12) + number
+   formats (C10) + sheet substreams (this property) + Range (C05), composed in XlsFile.v.  For every
+   logical workbook and every legal choice of container layout, SST layout and per-sheet record layout,
+   the model of Xls::new + worksheet_range on the FILE BYTES returns the sheets in order, each with
+   exactly the bounding rectangle of its cells and every value at its position. ---- *)
+From Calamine Require Cfb XlsFile XlsFile_proofs.
+Theorem C02_xls_whole_file_main : forall (fdiv100 : N -> N) (decode16 : list N -> list N) (show_f64 : N -> list N) (wb : XlsFile.lwb) (ch : XlsFile.xchoice) (fuel : nat), XlsFile.xfile_legal fdiv100 decode16 wb ch -> (Cfb.fuel_for (XlsFile.xc_layout ch) <= fuel)%nat -> XlsFile.xls_open_model fdiv100 decode16 show_f64 fuel (XlsFile.xls_file_write wb ch) = Ok (XlsFile.spec_result wb ch).
+Proof. exact XlsFile_proofs.xls_file_main. Qed.
+Print Assumptions C02_xls_whole_file_main.
